@@ -465,7 +465,7 @@ func preview(b []byte) string {
 var tokenPool = []string{"if", "else", "for", "in", "func", "return", "try", "catch", "finally", "throw", "var", "const", "param", "global", "import", "break", "continue",
 	"true", "false", "undefined", "iota", "a", "b", "len", "int", "x", "_", "(", ")", "{", "}", "[", "]", ",", ";", ":", ":=", "=", "+", "-", "*", "/", "%", "&", "|", "^", "&^", "<<", ">>",
 	"==", "!=", "<", "<=", ">", ">=", "&&", "||", "!", "++", "--", "+=", "...", ".", "?", "1", "0", "255", "256", "65536", "9223372036854775807", "9223372036854775808", "1u", "1.5", "1e400", ".5", "0x", "0b2", "1_0",
-	"\"s\"", "\"\\xff\"", "\"unterminated", "'a'", "'", "'ab'", "`raw`", "`unterminated", "//c\n", "/*c*/", "/*open", "\x00", "\xef\xbb\xbf", "\xff", "é", "import(\"m0\")", "import(\"cyc1\")", "import(\"nope\")", "import(\"invalid\")", "import(\"\")"}
+	"\"s\"", "\"\\xff\"", "\"unterminated", "'a'", "'", "'ab'", "`raw`", "`unterminated", "//c\n", "/*c*/", "/*open", "/* c *\r", "/*\r", "//c\r", "/* a\r\n b *\r", "\r", "/* x *\r\n", "`raw\r", "\"s\r", "\x00", "\xef\xbb\xbf", "\xff", "é", "import(\"m0\")", "import(\"cyc1\")", "import(\"nope\")", "import(\"invalid\")", "import(\"\")"}
 
 var tokRe = regexp.MustCompile("(?s)\"(?:\\\\.|[^\"\\\\])*\"|`[^`]*`|'(?:\\\\.|[^'\\\\])*'|[A-Za-z_][A-Za-z0-9_]*|[0-9][0-9a-zA-Z_.]*|\\s+|//[^\n]*|.")
 
@@ -575,6 +575,17 @@ func boundaryCases() []boundary {
 			boundary{fmt.Sprintf("func-depth-%d", n/10), "return " + strings.Repeat("func() { return ", n/10) + "1" + strings.Repeat(" }", n/10), false, false},
 			boundary{fmt.Sprintf("block-depth-%d", n/10), strings.Repeat("if true { ", n/10) + "x := 1" + strings.Repeat(" }", n/10), false, false},
 		)
+	}
+	// literals and comments that end (or do not end) at the very end of the input, with carriage
+	// returns around: the scanner looks ahead there
+	for _, prefix := range []string{"", "a := 1 ", "x\n"} {
+		for _, open := range []string{"/*", "//", "\"", "`", "'"} {
+			for _, body := range []string{"", "x", "x *", "*", "\r", "x\r\ny"} {
+				for _, tail := range []string{"", "\r", "\n", "\r\n", "*", "*\r", "*/", "*/\r", "\\", "\\\r"} {
+					out = append(out, boundary{"scanner-edge-" + fmt.Sprint(len(out)), prefix + open + body + tail, false, false})
+				}
+			}
+		}
 	}
 	out = append(out,
 		boundary{"import-cycle", `return import("cyc1")`, true, true},
